@@ -69,6 +69,14 @@ func loadAndCheck(raw []byte, m DebModel, members []ArMember, viaFile bool, inde
 			big := append(append([]byte("FRONT-JUNK-"), raw...), raw...)
 			src = io.NewSectionReader(bytes.NewReader(big), int64(len("FRONT-JUNK-")), int64(len(raw)))
 		}
+		switch (len(raw) / 4) % 3 {
+		case 1:
+			// a source that is an io.ReaderAt and nothing more: no Size, no Stat
+			src = &countingReaderAt{r: bytes.NewReader(raw)}
+		case 2:
+			// ... and one that reports io.EOF together with the last bytes, as the contract allows
+			src = &countingReaderAt{r: bytes.NewReader(raw), eager: true}
+		}
 		d, err = deb.Load(src, pathname)
 		if err == nil {
 			defer d.Close()
@@ -357,7 +365,7 @@ func tarNames(fs []TarFile) []string {
 
 var specC14Load = Register(&Spec[DebCase]{
 	Prop: "C14", Name: "load",
-	Rule:  "format-2.0 .deb packages built by an independent builder from a model: control paragraph (C10 DEBIAN/control generator, incl. X- fields), both tars in the GNU dialect (3/5), plain ustar or pax (every entry behind an extended header: sub-second mtime, atime, a non-ASCII owner name - what `tar --format=posix` and Python's tarfile write); control.tar with optional './' entry, './control' or 'control' at any position among md5sums/conffiles/postinst (containing look-alike 'Package:' text)/control.bak/triggers, data.tar of directories, regular files (0..4 KiB, sizes around the 512-byte tar block) and symlinks, control and data codec each from {none, gz, xz, bz2, lzma, zst} (xz members written with a 1, 8 or 16 MiB dictionary - 64 MiB too in the thorough tier), extra '_*' members after or between, optional GNU '/' name terminators; loaded with Load or LoadFile and twice more, and (LoadFile cases) once more keeping nothing but Deb.Data and the close function while the garbage collector runs before the payload is read. Oracle: typed control fields, unknown fields, SourceName, ControlExt/DataExt, Path, ArContent keys and bytes (in a third of the cases read through the indexed readers themselves, before the payload is touched), IsTarfile() / Tarfile() of the indexed control and data members (same listing and contents as the model), and the exact (name, type, content, link) sequence of the data tar equal the model; repeated loads agree. Non-trivial: control.tar has >= 2 files with control not first, or the two codecs differ; distinct by archive bytes.",
+	Rule:  "format-2.0 .deb packages built by an independent builder from a model: control paragraph (C10 DEBIAN/control generator, incl. X- fields), both tars in the GNU dialect (3/5), plain ustar or pax (every entry behind an extended header: sub-second mtime, atime, a non-ASCII owner name - what `tar --format=posix` and Python's tarfile write); control.tar with optional './' entry, './control' or 'control' at any position among md5sums/conffiles/postinst (containing look-alike 'Package:' text)/control.bak/triggers, data.tar of directories, regular files (0..4 KiB, sizes around the 512-byte tar block) and symlinks, control and data codec each from {none, gz, xz, bz2, lzma, zst} (xz members written with a 1, 8 or 16 MiB dictionary - 64 MiB too in the thorough tier), extra '_*' members after or between, optional GNU '/' name terminators, one package in ten with a member stamped before 1970 (timestamp -3600) or all members owned by -1:-2; loaded with LoadFile or with Load from a bytes.Reader, an io.SectionReader window, or a bare io.ReaderAt that tells no size (plain, or reporting io.EOF together with the last bytes), and twice more, and (LoadFile cases) once more keeping nothing but Deb.Data and the close function while the garbage collector runs before the payload is read. Oracle: typed control fields, unknown fields, SourceName, ControlExt/DataExt, Path, ArContent keys and bytes (in a third of the cases read through the indexed readers themselves, before the payload is touched), IsTarfile() / Tarfile() of the indexed control and data members (same listing and contents as the model), and the exact (name, type, content, link) sequence of the data tar equal the model; repeated loads agree. Non-trivial: control.tar has >= 2 files with control not first, or the two codecs differ; distinct by archive bytes.",
 	Check: checkDebCase,
 })
 
